@@ -394,3 +394,56 @@ def replay_model(drv, recs):
         if _replay_once(drv, recs, dict(zip(keys, combo)), {}) is None:
             return None
     return d
+
+
+# ------------------------------------------------------------------------------------------------
+# finding F20: a kill between two row commits of a task + an edit made after the kill
+# ------------------------------------------------------------------------------------------------
+
+F20_MODULE = '''from pathlib import Path
+D = Path(__file__).resolve().parent
+
+
+def task_cmp(a=D / "a.txt", b=D / "b.txt", produces=D / "same.txt"):
+    produces.write_text("equal" if a.read_text() == b.read_text() else "differ")
+'''
+
+
+def f20_witness(server) -> dict:
+    """a=b=1, build; a=b=2 (product stays "equal"), rebuild killed right after the FIRST state-row commit; b put back to 1;
+    build. Reproduced = that build reports the task SKIP_UNCHANGED / SUCCESS with same.txt == "equal" although a != b."""
+    root = common.scratch_dir("c05f20")
+    clock = project.Clock()
+    pts = root / ".verif_points"
+    try:
+        project.write_file(root / "task_cmp.py", F20_MODULE, clock)
+        project.write_file(root / "a.txt", "1", clock)
+        project.write_file(root / "b.txt", "1", clock)
+        o1 = server.build(root, {}, env={})
+        if o1.get("exit") != 0:
+            return {"reproduced": False, "why": f"first build failed: {o1}"}
+        project.write_file(root / "a.txt", "2", clock)
+        project.write_file(root / "b.txt", "2", clock)
+        backup = Path(str(root) + ".bak")
+        shutil.copytree(root, backup)
+        try:
+            server.build(root, {}, env={"PYTASK_VERIF": "1", "PYTASK_VERIF_POINTS": str(pts)})
+            ks = [n for (n, kind, a) in read_points(pts) if kind == "commit.after" and a == "state"]
+            if len(ks) < 2:
+                return {"reproduced": False, "why": "the rows of a task are committed in fewer than two transactions", "state_commits": len(ks)}
+            restore(root, backup)
+            o2 = server.build(root, {}, env={"PYTASK_VERIF": "1", "PYTASK_VERIF_POINTS": str(pts), "PYTASK_VERIF_CRASH": str(ks[0])})
+            if not o2.get("died"):
+                return {"reproduced": False, "why": "the build was not killed"}
+            pts.unlink(missing_ok=True)
+            project.write_file(root / "b.txt", "1", clock)
+            o3 = server.build(root, {}, env={})
+            outs = [r[1] for r in o3.get("reports", [])]
+            same = (root / "same.txt").read_text() if (root / "same.txt").exists() else None
+            stale = o3.get("exit") == 0 and same == "equal" and outs and outs[0] in ("SKIP_UNCHANGED", "SUCCESS")
+            return {"reproduced": bool(stale), "outcome": outs, "same.txt": same, "a": "2", "b": "1", "killed_after_state_commit": 1,
+                    "state_commits_in_full_build": len(ks)}
+        finally:
+            shutil.rmtree(backup, ignore_errors=True)
+    finally:
+        shutil.rmtree(root, ignore_errors=True)
